@@ -103,6 +103,17 @@ def crash_worker(job: dict) -> dict:
             os.environ.pop("PASQAL_IO_EMULATORS_VERIF_CRASH_AFTER_SAVE", None)
             ev.append({"ev": "crash"})
             f = saves[-1]["file"] if saves else None
+            if job.get("relocate") and f:
+                # the snapshot is moved (another scratch directory / machine) before it is resumed
+                import shutil
+                newdir = wd.parent / (wd.name + "_moved")
+                newdir.mkdir(parents=True, exist_ok=True)
+                nf = newdir / ("rescued_" + Path(f).name)
+                shutil.move(f, nf)
+                os.chdir(newdir)
+                if job["relocate"] == "purge":
+                    shutil.rmtree(wd, ignore_errors=True)
+                f = str(nf)
             out["file"] = f
             try:
                 res = MPSBackend.resume(f)
@@ -110,6 +121,8 @@ def crash_worker(job: dict) -> dict:
             except BaseException as e:  # noqa
                 out["resume_error"] = f"{type(e).__name__}: {e}"
             out["file_left"] = bool(f and Path(f).exists())
+            leftovers = [str(p) for d in (wd, wd.parent / (wd.name + "_moved")) if d.exists() for p in d.iterdir() if p.suffix in (".dat", ".new", ".bak")]
+            out["leftovers"] = leftovers
             out["permute_on_resume"] = any(e["ev"] == "mps_permute" for e in ev[ev.index({"ev": "crash"}):])
     except BaseException as e:  # noqa
         out["error"] = f"{type(e).__name__}: {e}"
@@ -174,6 +187,10 @@ def run(ctx: Ctx) -> None:
             ks = sorted(set(ks[:4] + ks[-3:] + ctx.rng.sample(ks, 3)))
         for k in ks:
             jobs.append({"scen": s, "crash_after": k, "seed": 100 + ctx.seed, "dir": str(ctx.work / f"crash_{s}_{k}")})
+        # the snapshot may be resumed from another place than where it was written
+        for mode in ("purge", "keep"):
+            k = ks[len(ks) // 2] if mode == "purge" else ks[max(0, len(ks) // 3)]
+            jobs.append({"scen": s, "crash_after": k, "seed": 100 + ctx.seed, "dir": str(ctx.work / f"reloc_{mode}_{s}_{k}"), "relocate": mode})
     res = pmap(crash_worker, jobs)
     traces = []
     meta = {}
@@ -183,18 +200,20 @@ def run(ctx: Ctx) -> None:
         s = j["scen"]
         sc = SCEN[s]
         b = base[s]
-        key = ("crash", s, j["crash_after"])
+        key = ("crash", s, j["crash_after"], j.get("relocate"))
         if r["error"]:
             raise MachineryError(f"crash run {key} failed in the harness: {r['error']}")
         if not r["crashed"]:
             raise MachineryError(f"{key}: crash injection did not fire")
-        ctx.case(key, sample={"scenario": s, "crash_after_save": j["crash_after"], "saves_in_run": b["n_saves"], "perm": b["perm"]})
+        ctx.case(key, sample={"scenario": s, "crash_after_save": j["crash_after"], "saves_in_run": b["n_saves"], "perm": b["perm"], "relocate": j.get("relocate")})
         where = f"{sc['kind']}:{'reorder' if sc['reorder'] else 'noreorder'}"
+        if j.get("relocate"):
+            where += ":relocated"
         if r["resume_error"]:
             ctx.violation(f"resume:{where}:raises:{r['resume_error'].split(':')[0]}", f"MPSBackend.resume raised after a crash following autosave #{j['crash_after']}: {r['resume_error']}", {"job": j})
             continue
-        if r["file_left"]:
-            ctx.violation(f"resume:{where}:autosave-file-not-removed", "autosave file still present after the resumed run finished", {"job": j})
+        if r["file_left"] or r.get("leftovers"):
+            ctx.violation(f"resume:{where}:autosave-file-not-removed", f"autosave file(s) still present after the resumed run finished: {r.get('leftovers') or r.get('file')}", {"job": j})
         resume_permutes_seen.add(bool(r.get("permute_on_resume")))
         if sc["kind"] == "noisy":
             cmp = compare_results(r["results"], b["results"], atol=10.0)  # values differ by construction (different RNG stream)
